@@ -279,15 +279,15 @@ func stateBodiesHit(vm *ds.Context, cfg vmx.Cfg) (*gateHit, []ds.VerifOp) {
 // Config snapshots
 
 type cfgSnap struct {
-	WoD, CoC, Fate, DC         bool
+	WoD, CoC, Fate, DC          bool
 	NoBitwise, NoStmts, NoNDice bool
-	ParseLimit                 uint64
-	OpLimit                    int64
-	DefSide                    string
-	Print, IgnDiv0             bool
-	Lang                       int
-	Min, Max                   bool
-	Hooks                      [7]bool
+	ParseLimit                  uint64
+	OpLimit                     int64
+	DefSide                     string
+	Print, IgnDiv0              bool
+	Lang                        int
+	Min, Max                    bool
+	Hooks                       [7]bool
 }
 
 func snapCfg(vm *ds.Context) cfgSnap {
@@ -846,10 +846,35 @@ func withFlags(c vmx.Cfg, b int) vmx.Cfg {
 type HistCase struct {
 	Cfg   vmx.Cfg `json:"cfg"`
 	Steps []Step  `json:"steps"`
+	// Custom: the host has registered custom dice syntaxes on the VM: bit 0 the regular expression E(\d+), bit 1 a stream
+	// parser for K<digits>; some steps then use them behind their macros
+	Custom int `json:"custom,omitempty"`
+}
+
+// regHistCustom registers the custom syntaxes of a history case.
+func regHistCustom(vm *ds.Context, custom int) {
+	handler := func(ctx *ds.Context, groups []string, payload any) (*ds.VMValue, string, error) {
+		return ds.NewIntVal(7), "", nil
+	}
+	if custom&1 != 0 {
+		_ = vm.RegCustomDice(`E(\d+)`, handler)
+	}
+	if custom&2 != 0 {
+		_ = vm.RegCustomDiceParser(func(ctx *ds.Context, st *ds.CustomDiceStream) (*ds.CustomDiceParseResult, error) {
+			if r, ok := st.Read(); !ok || r != 'K' {
+				return &ds.CustomDiceParseResult{Matched: false}, nil
+			}
+			if _, ok := st.ReadDigits(); !ok {
+				return &ds.CustomDiceParseResult{Matched: false}, nil
+			}
+			return &ds.CustomDiceParseResult{Matched: true}, nil
+		}, handler)
+	}
 }
 
 func checkHistory(c HistCase, s *rt.Section) (*rt.Failure, int, int) {
 	vm := c.Cfg.NewVM()
+	regHistCustom(vm, c.Custom)
 	vm.Config.CallbackSt = func(_type string, name string, val *ds.VMValue, extra *ds.VMValue, op string, detail string) {}
 	before := snapCfg(vm)
 	macroSteps, macroEffective := 0, 0
@@ -1405,7 +1430,7 @@ func TestProp(t *testing.T) {
 		func(s *rt.Section) { enumReadExpr(s, run) })
 
 	run.Check("history", 2400, 30000,
-		"one VM, 1..5 evaluations (Run / Parse / RunExpr; before one step in four the host writes a new set of the seven switches into the live VM's Config, and half of those steps evaluate the previous text again byte for byte with nothing in between: the switches in force when a text is compiled decide) of texts with `// #EnableDice <family> true|false` macros (spacing variants, unknown family names, the GUIDE's non-macro spelling) placed first, between statements, inside function bodies, template holes, blocks, before computed reads, switched on then off, and of macro-free texts (family uses, calls of functions defined under a macro, spellings, generated programs). After every step: Config equals its initial value field by field; 15 macro-free probes (2a5 a5 2a5k6m9 b2 p f 2c5 2c5m7, if/func/while, 3d d, 1|2 1&2) parsed on the same VM compile to exactly the gated instructions the configuration prescribes (none when the gate is closed); every macro-free step's own listing respects the closed gates; at the end a fresh VM passes the probes too. Non-trivial = at least one step has a macro and a later step (or probe) is macro-free; distinct by configuration + steps",
+		"one VM, 1..5 evaluations (Run / Parse / RunExpr; before one step in four the host writes a new set of the seven switches into the live VM's Config, and half of those steps evaluate the previous text again byte for byte with nothing in between: the switches in force when a text is compiled decide) of texts with `// #EnableDice <family> true|false` macros (spacing variants, unknown family names, the GUIDE's non-macro spelling) placed first, between statements, inside function bodies, template holes, blocks, before computed reads, switched on then off, and of macro-free texts (family uses, calls of functions defined under a macro, spellings, generated programs). After every step: Config equals its initial value field by field; 15 macro-free probes (2a5 a5 2a5k6m9 b2 p f 2c5 2c5m7, if/func/while, 3d d, 1|2 1&2) parsed on the same VM compile to exactly the gated instructions the configuration prescribes (none when the gate is closed); every macro-free step's own listing respects the closed gates; at the end a fresh VM passes the probes too. Non-trivial = at least one step has a macro and a later step (or probe) is macro-free; one case in three has custom dice syntaxes (regular expression E<digits>, stream parser K<digits>) registered on the VM and operands of them written behind the macros of its steps; distinct by configuration + steps",
 		func(t *rapid.T, s *rt.Section) {
 			c := HistCase{Cfg: drawCfg(t)}
 			n := rapid.IntRange(1, 5).Draw(t, "nSteps")
@@ -1425,6 +1450,36 @@ func TestProp(t *testing.T) {
 					}
 				}
 				c.Steps = append(c.Steps, st)
+			}
+			if rapid.IntRange(0, 2).Draw(t, "histCustom") == 0 {
+				// custom dice syntaxes on the VM, used behind the macros of some steps (after the first line and at the end)
+				c.Custom = rapid.IntRange(1, 3).Draw(t, "custom")
+				ops := []string{}
+				if c.Custom&1 != 0 {
+					ops = append(ops, "E5")
+				}
+				if c.Custom&2 != 0 {
+					ops = append(ops, "K3")
+				}
+				for i := range c.Steps {
+					if c.Steps[i].Flip != nil && i > 0 && c.Steps[i].Src == c.Steps[i-1].Src {
+						continue // the byte-for-byte repeat stays one
+					}
+					op := rapid.SampledFrom(ops).Draw(t, "customOp")
+					switch rapid.IntRange(0, 3).Draw(t, "customWhere") {
+					case 0:
+						c.Steps[i].Src += "\n" + op + " + 1"
+					case 1:
+						if nl := strings.IndexByte(c.Steps[i].Src, '\n'); nl >= 0 {
+							c.Steps[i].Src = c.Steps[i].Src[:nl+1] + op + "; " + c.Steps[i].Src[nl+1:]
+						} else {
+							c.Steps[i].Src += "; " + op
+						}
+					case 2:
+						c.Steps[i].Src = op + "; " + c.Steps[i].Src
+					}
+				}
+				s.Class("custom-dice-registered")
 			}
 			s.Eval()
 			s.Crumb(c)
